@@ -63,6 +63,9 @@ pub enum Shape {
     Stdin(String),
     /// format-all; None = no directory argument (cwd is the tree root)
     FormatAll(Option<String>),
+    /// C16 only: a sequence of calls of the width-only convenience function (the WebAssembly export)
+    /// in one thread: (source, width)
+    WidthFn(Vec<(String, usize)>),
 }
 
 #[derive(Clone, Debug, Serialize, Deserialize)]
@@ -136,10 +139,37 @@ fn option_sensitive(t: &mut Tape, n: usize, column: usize) -> String {
     }
     let mut s = format!("{head}{args}{tail}");
     s.push_str("#import \"m.typ\": zz, aa, mm\n#{\n  if c {\n    (1,\n      2)\n  }\n}\n");
+    s.push_str(&chain_doc(t, column));
     s
 }
 
+/// `#{ aaaa.bbbb.cccc(dddddd, eeeeee) }` with a dotted path about 0.6 x column long: the plain / chain
+/// layout decision (Config::chain_width) flips within a few columns of `column`
+fn chain_doc(t: &mut Tape, column: usize) -> String {
+    let want = ((column as f32 * 0.6) as usize + t.below(3)).saturating_sub(1).clamp(5, 60);
+    // three identifiers and two dots
+    let each = (want.saturating_sub(2)) / 3;
+    let rest = want.saturating_sub(2) - 2 * each;
+    let a = "a".repeat(each.max(1));
+    let b = "b".repeat(each.max(1));
+    let c = "c".repeat(rest.max(1));
+    format!("#{{\n  {a}.{b}.{c}(dddddd, eeeeee)\n}}\n")
+}
+
 fn gen_content(t: &mut Tape, env: &Env, n: usize, column: usize) -> (Content, &'static str) {
+    let (c, class) = gen_content_base(t, env, n, column);
+    // spellings that differ from the formatted text only in line ends / final newline / trailing blanks
+    match (c, t.weighted(&[10, 2, 1, 2, 1, 1])) {
+        (Content::Text(s), 1) => (Content::Text(s.replace('\n', "\r\n")), if class == "formatted(default-cfg)" { "formatted+crlf" } else { class }),
+        (Content::Text(s), 2) => (Content::Text(s.replace('\n', "\r")), if class == "formatted(default-cfg)" { "formatted+cr" } else { class }),
+        (Content::Text(s), 3) => (Content::Text(s.strip_suffix('\n').map(|x| x.to_string()).unwrap_or(s)), if class == "erroneous" { "erroneous+no-final-newline" } else { class }),
+        (Content::Text(s), 4) => (Content::Text(s.replacen('\n', "  \n", 1)), if class == "formatted(default-cfg)" { "formatted+trailing-blanks" } else { class }),
+        (Content::Text(s), 5) => (Content::Text(format!("{s}\n")), if class == "formatted(default-cfg)" { "formatted+extra-final-newline" } else { class }),
+        (c, _) => (c, class),
+    }
+}
+
+fn gen_content_base(t: &mut Tape, env: &Env, n: usize, column: usize) -> (Content, &'static str) {
     match t.weighted(&[8, 5, 3, 1, 2, 2, 4, 3]) {
         0 => (Content::Text(fill(t.pick(UNFORMATTED), n)), "unformatted"),
         1 => {
@@ -263,6 +293,42 @@ fn gen_invocation(t: &mut Tape, tree: &Tree, which: CliWhich, column: usize, st:
         .map(|e| e.path.clone())
         .collect();
     let dirs: Vec<String> = tree.entries.iter().filter(|e| matches!(e.kind, Kind::Dir)).map(|e| e.path.clone()).collect();
+    if which == CliWhich::C16 && t.chance(40) {
+        // the width-only convenience function: one or two texts at several widths, mostly ladders of
+        // descending widths (a front-end that remembers a previous answer shows there)
+        let mut texts: Vec<String> = vec![];
+        for _ in 0..1 + t.below(2) {
+            texts.push(match t.below(5) {
+                0 => fill(t.pick(UNFORMATTED), 98),
+                1 => fill(t.pick(ERRONEOUS), 98),
+                2 => chain_doc(t, column),
+                _ => option_sensitive(t, 98, column),
+            });
+        }
+        let mut calls = vec![];
+        let mut w = column + t.below(12);
+        for _ in 0..2 + t.below(6) {
+            let s = texts[t.below(texts.len())].clone();
+            calls.push((s, w));
+            w = match t.weighted(&[6, 2, 1]) {
+                0 => w.saturating_sub(1 + t.below(5)),
+                1 => w,
+                _ => w + t.below(30),
+            };
+        }
+        st.label("shape:width-fn");
+        return Invocation {
+            shape: Shape::WidthFn(calls),
+            check: false,
+            inplace: false,
+            column: None,
+            tab: None,
+            reorder: false,
+            verbosity: 0,
+            flags_last: false,
+            addressing: 0,
+        };
+    }
     let shape_w = match which {
         CliWhich::C14 => [5, 2, 4],
         CliWhich::C15 => [5, 0, 5],
@@ -304,8 +370,10 @@ fn gen_invocation(t: &mut Tape, tree: &Tree, which: CliWhich, column: usize, st:
         }
     };
     let (check, inplace) = match which {
-        CliWhich::C14 => (true, false),
-        CliWhich::C15 => (false, matches!(shape, Shape::Files(_))),
+        // `-i` is a top-level flag: clap accepts it together with `--check` only across command levels
+        // (`typstyle -i format-all --check`); next to each other the pair is a usage error
+        CliWhich::C14 => (true, t.chance(if matches!(shape, Shape::FormatAll(_)) { 70 } else { 16 })),
+        CliWhich::C15 => (false, matches!(shape, Shape::Files(_)) || t.chance(60)),
         CliWhich::C16 => {
             if matches!(shape, Shape::Files(_)) && t.chance(80) {
                 (false, true)
@@ -333,7 +401,9 @@ fn gen_invocation(t: &mut Tape, tree: &Tree, which: CliWhich, column: usize, st:
         Shape::Stdin(_) => "shape:stdin",
         Shape::FormatAll(None) => "shape:format-all(cwd)",
         Shape::FormatAll(Some(_)) => "shape:format-all(dir)",
+        Shape::WidthFn(_) => "shape:width-fn",
     });
+    st.label_if(inv.check && inv.inplace, "flags:inplace+check");
     inv
 }
 
@@ -536,7 +606,16 @@ fn run_cli(cli: &Path, inv: &Invocation, m: &Materialised, tree: &Tree) -> std::
                 None => cwd = m.root.clone(),
                 Some(d) => sub.push(path_arg(inv, m, tree, d)),
             }
-            // -i is a top-level flag and irrelevant for format-all; global flags may go on either side
+            // -i is a top-level flag (before the subcommand) and irrelevant for format-all; global flags may
+            // go on either side -- except that `--check` next to `-i` is a usage error, so it follows
+            // the subcommand then
+            if inv.inplace {
+                args.push("-i".into());
+            }
+            if inv.inplace && inv.check {
+                flags.retain(|f| f != "--check");
+                sub.push("--check".into());
+            }
             if inv.flags_last {
                 args.append(&mut sub);
                 args.append(&mut flags);
@@ -545,6 +624,7 @@ fn run_cli(cli: &Path, inv: &Invocation, m: &Materialised, tree: &Tree) -> std::
                 args.append(&mut sub);
             }
         }
+        Shape::WidthFn(_) => unreachable!("not a CLI invocation"),
     }
     let mut cmd = Command::new(cli);
     cmd.args(&args)
@@ -729,6 +809,7 @@ fn expect(state0: &BTreeMap<String, Vec<u8>>, tree: &Tree, inv: &Invocation, env
                 handle(Some(&p), text, &mut ex, &mut out, !inv.check);
             }
         }
+        Shape::WidthFn(_) => {}
     }
     ex.untouched_other = ex.files.values().filter(|f| f.untouched && f.why != "already formatted").count();
     if inv.check {
@@ -740,6 +821,10 @@ fn expect(state0: &BTreeMap<String, Vec<u8>>, tree: &Tree, inv: &Invocation, env
     }
     if ambiguous_io && !ex.exit_ok.contains(&1) {
         ex.exit_ok.push(1);
+    }
+    if inv.check && inv.inplace && matches!(inv.shape, Shape::Files(_)) {
+        // clap rejects the pair (usage error, status 2); nothing may be touched either way
+        ex.exit_ok.push(2);
     }
     ex
 }
@@ -812,6 +897,41 @@ impl Prop for CliProp {
         }
         let mut nontrivial = false;
         for (k, inv) in c.history.iter().enumerate() {
+            if let Shape::WidthFn(calls) = &inv.shape {
+                // the width-only convenience function, called repeatedly in one thread
+                for (j, (src, w)) in calls.iter().enumerate() {
+                    let want = if syn::wf(src) {
+                        match env.f.format(src, &Cfg { width: *w, tab: 2, reorder: false }) {
+                            Fmt::Ok(o) => o,
+                            _ => return Verdict::skip("deferred_to_C05:panic"),
+                        }
+                    } else {
+                        src.clone()
+                    };
+                    match env.f.format_with_width(src, *w) {
+                        Ok(got) if got == want => {}
+                        Ok(got) => {
+                            let la: Vec<&str> = want.split('\n').collect();
+                            let lb: Vec<&str> = got.split('\n').collect();
+                            let i = la.iter().zip(lb.iter()).position(|(x, y)| x != y).unwrap_or(la.len().min(lb.len()));
+                            return Verdict::fail(
+                                "C16:width-fn-differs-from-library",
+                                format!(
+                                    "invocation #{k}: call {j} of the sequence (widths {:?}): format_with_width(src, {w}) differs from the library result at line {}: library {:?}, wrapper {:?}",
+                                    calls.iter().map(|c| c.1).collect::<Vec<_>>(),
+                                    i + 1,
+                                    la.get(i),
+                                    lb.get(i)
+                                ),
+                            );
+                        }
+                        Err(_) => return Verdict::skip("deferred_to_C05:panic"),
+                    }
+                }
+                st.label("shape:width-fn:evaluated");
+                nontrivial |= calls.len() >= 2;
+                continue;
+            }
             reset_mtimes(&m, &c.tree);
             let before = snapshot(&m.root, &c.tree);
             let state: BTreeMap<String, Vec<u8>> = before.files.iter().map(|(p, (b, _))| (p.clone(), b.clone())).collect();
@@ -826,6 +946,17 @@ impl Prop for CliProp {
                 return Verdict::fail(format!("{}:killed-by-signal", self.id()), format!("{ctx}: the CLI was killed by a signal; stderr: {}", String::from_utf8_lossy(&out.stderr)));
             };
             if code == 2 && String::from_utf8_lossy(&out.stderr).contains("Usage") {
+                // a usage error must not have touched anything
+                for (p, (bb, bmt)) in &before.files {
+                    let (ab, amt) = after.files.get(p).cloned().unwrap_or((vec![], filetime::FileTime::zero()));
+                    if &ab != bb || amt != *bmt {
+                        return Verdict::fail(format!("{}:usage-error-modified-file", self.id()), format!("{ctx}: the CLI reported a usage error but modified {p}"));
+                    }
+                }
+                if inv.check && inv.inplace {
+                    st.label("usage-error:inplace+check");
+                    continue;
+                }
                 return Verdict::skip("usage-error(generator)");
             }
             // ---- files
